@@ -92,3 +92,45 @@ theorem apply_stem_eq_map (g : List Nat → List Nat) (ts : List Token) :
   | cons t ts ih => simp only [Filter.apply, List.flatMap_cons, Filter.onToken, List.map_cons] at *; rw [ih]; rfl
 
 end TantivyModel.Tok
+
+namespace TantivyModel.Tok
+
+theorem lower_clears : Gen.LOWERCASER_CLEARS_OUTPUT ≠ 0 := by decide
+theorem fold_clears : Gen.ASCII_FOLDING_CLEARS_OUTPUT ≠ 0 := by decide
+theorem stem_clears : Gen.STEMMER_CLEARS_BUFFER ≠ 0 := by decide
+theorem split_clears : Gen.SPLIT_COMPOUND_CLEARS_PARTS ≠ 0 := by decide
+
+/-- each filter's drained stream, from any state of its buffers, is the stateless filter -/
+theorem stream_eq_apply (owned : List Nat → Bool) (f : Filter) (st : FilterState)
+    (inner : List Token) : f.stream owned st inner = f.apply inner := by
+  cases f with
+  | lower g =>
+    simp only [Filter.stream]
+    rw [apply_lower_eq_map]; exact bufferedStream_of_step _ _ (lowerStep_text lower_clears g) inner st.buf
+  | fold g =>
+    simp only [Filter.stream]
+    rw [apply_fold_eq_map]; exact bufferedStream_of_step _ _ (foldStep_text fold_clears g) inner st.buf
+  | stem g =>
+    simp only [Filter.stream]
+    rw [apply_stem_eq_map]; exact bufferedStream_of_step _ _ (stemStep_text stem_clears g owned) inner st.buf
+  | split g =>
+    simp only [Filter.stream]
+    rw [splitRun_emits]
+    simp only [splitNewStream, split_clears, if_false, List.tail_nil, List.nil_append]
+    exact List.take_of_length_le (by omega)
+  | removeLong l => rfl
+  | alnumOnly => rfl
+  | stop ws => rfl
+
+theorem chainStream_eq_applyChain (owned : List Nat → Bool) : ∀ (fs : List Filter)
+    (sts : List FilterState) (ts : List Token), chainStream owned fs sts ts = applyChain fs ts := by
+  intro fs
+  induction fs with
+  | nil => intro sts ts; cases sts <;> rfl
+  | cons f fs ih =>
+    intro sts ts
+    cases sts with
+    | nil => simp only [chainStream, stream_eq_apply, ih]; rfl
+    | cons st sts => simp only [chainStream, stream_eq_apply, ih]; rfl
+
+end TantivyModel.Tok
